@@ -331,8 +331,15 @@ impl FixedString {
 
     /// Parse a fixed-width string from a reader
     pub fn parse<R: Read + Seek>(reader: &mut R, len: usize) -> Result<Self> {
-        let mut data = vec![0u8; len];
-        reader.read_exact(&mut data)?;
+        // The length comes straight from the file: read through a length-limited
+        // adapter instead of allocating it up front
+        let mut data = Vec::new();
+        reader.by_ref().take(len as u64).read_to_end(&mut data)?;
+        if data.len() != len {
+            return Err(M2Error::Io(std::io::Error::from(
+                std::io::ErrorKind::UnexpectedEof,
+            )));
+        }
 
         // Find null terminator
         let null_pos = data.iter().position(|&b| b == 0).unwrap_or(len);
